@@ -93,12 +93,36 @@ Qed.
 Lemma size_bound v : v < 2 ^ N.of_nat (N.to_nat (N.size v)).
 Proof. rewrite N2Nat.id. apply N.size_gt. Qed.
 
+Lemma bin_digits_mid k : forall v, forallb is_ident_mid (bin_digits k v) = true.
+Proof.
+  induction k as [|k IH]; intro v; [reflexivity|]. cbn [bin_digits]. rewrite forallb_app, IH. cbn [forallb].
+  assert (H : v mod 2 < 2) by (apply N.mod_lt; discriminate). generalize dependent (v mod 2). intros m H.
+  replace (is_ident_mid (48 + m)) with true; [reflexivity|].
+  unfold is_ident_mid, is_ident_start, is_lower, is_upper, is_digit, in_range. lia.
+Qed.
+
+Lemma digits_bin k : forall v acc cnt, v < 2 ^ N.of_nat k ->
+  digits 2 (bin_digits k v) acc cnt = Some (acc * 2 ^ N.of_nat k + v, cnt + N.of_nat k).
+Proof.
+  induction k as [|k IH]; intros v acc cnt Hv.
+  - cbn [bin_digits digits]. change (N.of_nat 0) with 0 in *. rewrite N.pow_0_r in *. apply f_equal. apply f_equal2; lia.
+  - cbn [bin_digits]. rewrite Nat2N.inj_succ, N.pow_succ_r' in *.
+    assert (Hq : v / 2 < 2 ^ N.of_nat k) by (apply N.div_lt_upper_bound; lia).
+    rewrite digits_app, (IH (v / 2) acc cnt Hq). cbn [digits].
+    assert (Hm : v mod 2 < 2) by (apply N.mod_lt; discriminate).
+    destruct (dec_char_facts (v mod 2) ltac:(lia)) as (_ & -> & ->).
+    destruct (N.ltb_spec (v mod 2) 2); [|lia].
+    pose proof (N.div_mod' v 2) as Hdm. apply f_equal. apply f_equal2; lia.
+Qed.
+
 (* the shape of a printed number *)
-Lemma print_num_shape v sz : wfp (ENum v sz) = true ->
+Lemma print_num_shape v sz : printable (ENum v sz) = true ->
   exists d s, print_num v sz = d :: s /\ is_digit d = true /\ forallb is_ident_mid s = true.
 Proof.
   intros Hw. destruct sz as [s|]; cbn [print_num].
-  - exists 48, (120 :: hex_digits (N.to_nat (s / 4)) v). repeat split. cbn [forallb]. rewrite hex_digits_mid. reflexivity.
+  - destruct (s mod 4 =? 0).
+    + exists 48, (120 :: hex_digits (N.to_nat (s / 4)) v). repeat split. cbn [forallb]. rewrite hex_digits_mid. reflexivity.
+    + exists 48, (98 :: bin_digits (N.to_nat s) v). repeat split. cbn [forallb]. rewrite bin_digits_mid. reflexivity.
   - pose proof (dec_digits_digit _ v (size_bound v)) as Hd.
     destruct (dec_digits (N.to_nat (N.size v)) v) as [|d s] eqn:E.
     + destruct (digits_dec _ v 0 0 (size_bound v)) as (m & Em & Hm). rewrite E in Em. cbn [digits] in Em.
@@ -107,15 +131,25 @@ Proof.
       apply (forallb_imp is_digit); [|exact Hs]. intros x Hx. unfold is_ident_mid. rewrite Hx. apply orb_true_r.
 Qed.
 
-Lemma num_lex v sz rest : wfp (ENum v sz) = true -> sep rest -> Lex (print_num v sz) rest TNumber.
+Lemma num_lex v sz rest : printable (ENum v sz) = true -> sep rest -> Lex (print_num v sz) rest TNumber.
 Proof.
   intros Hw Hr. destruct (print_num_shape v sz Hw) as (d & s & -> & Hd & Hs). apply lex_number; assumption.
 Qed.
 
-Lemma num_literal v sz : wfp (ENum v sz) = true -> number_literal (print_num v sz) = Some (v, sz).
+Lemma num_literal v sz : printable (ENum v sz) = true -> number_literal (print_num v sz) = Some (v, sz).
 Proof.
-  intros Hw. destruct sz as [s|]; cbn [print_num wfp] in *.
-  - apply andb_prop in Hw. destruct Hw as [Hw Hv]. apply andb_prop in Hw. destruct Hw as [Hs Hm].
+  intros Hw. destruct sz as [s|]; cbn [print_num printable] in *.
+  - apply andb_prop in Hw. destruct Hw as [Hs Hv]. destruct (s mod 4 =? 0) eqn:Hm.
+    2:{ set (k := N.to_nat s). assert (Ek : N.of_nat k = s) by (unfold k; apply N2Nat.id).
+        assert (Hv' : v < 2 ^ N.of_nat k) by (rewrite Ek; lia).
+        change (number_literal ([48; 98] ++ bin_digits k v)) with
+          (match digits 2 (bin_digits k v) 0 0 with
+           | Some (v0, cnt) => if cnt =? 0 then None
+                               else Some (v0, if 2 =? 2 then Some cnt else if 2 =? 8 then Some (3 * cnt) else if 2 =? 16 then Some (4 * cnt) else None)
+           | None => None end).
+        rewrite (digits_bin k v 0 0 Hv'). rewrite Ek.
+        destruct (N.eqb_spec (0 + s) 0); [lia|]. change (2 =? 2) with true. cbv iota.
+        apply f_equal. apply f_equal2; [lia|]. apply f_equal. lia. }
     assert (E4 : s = 4 * (s / 4)).
     { pose proof (N.div_mod' s 4). apply N.eqb_eq in Hm. lia. }
     set (k := N.to_nat (s / 4)). assert (Ek : N.of_nat k = s / 4) by (unfold k; apply N2Nat.id).
